@@ -67,11 +67,12 @@ def regenerate_gen():
 
 
 TIE_OF = {'C02': ['C01'], 'C03': ['C09'], 'C04': ['C01'], 'C07': ['C05'], 'C11': ['C05', 'C06'],
-          'C14': ['C14', 'C05'], 'C16': ['C05', 'C06'], 'C17': ['C17', 'C05', 'C09', 'C10'], 'C15': ['C01']}
+          'C14': ['C14', 'C05'], 'C16': ['C05', 'C06'], 'C17': ['C17', 'C05', 'C09', 'C10'], 'C15': ['C15', 'C01']}
 
 
 EXTRA_PROPS = {'C03': ['Pearl.Props.C03b'], 'C01': ['Pearl.Props.EndToEnd'], 'C06': ['Pearl.Props.EndToEndCrash'],
-               'C10': ['Pearl.Props.C10b'], 'C16': ['Pearl.Props.ToolsServe']}
+               'C10': ['Pearl.Props.C10b'], 'C16': ['Pearl.Props.ToolsServe', 'Pearl.Props.C16b'],
+               'C14': ['Pearl.Props.C14b'], 'C15': ['Pearl.Props.C15b']}
 
 
 def prop_modules(prop):
